@@ -5,7 +5,8 @@
    The model (SetModel.v) mirrors set/set.go of the current tree; it is tied to the code by
    the correspondence run of ./check C07.                                                    *)
 From Coq Require Import List Bool Permutation ZArith.
-From GT Require Import SetModel SetProofs SetMultiModel SetMultiProofs.
+From GT Require Import SetModel SetProofs SetMultiModel SetMultiProofs SetRunModel SetRunProofs
+  SetHeapPrims SetHeapModel SetHeapProofs.
 Import ListNotations.
 
 Section C07.
@@ -78,11 +79,43 @@ Section C07.
     map snd (s_run eqb s_nil ops) = a_run T eqb a_empty dom ops
     /\ wf (s_final T eqb s_nil ops)
     /\ rel T eqb (s_final T eqb s_nil ops) (a_final T eqb a_empty dom ops).
-  Proof.
-    intros dom ops H.
-    exact (run_refines T eqb eqb_eq dom ops s_nil a_empty (nil_wf T) (nil_rel T eqb)
-             (fun x (E : a_empty x = true) => False_ind _ (Bool.diff_false_true E)) H).
-  Qed.
+  Proof. exact (run_refines_nil T eqb eqb_eq). Qed.
+
+  (* the same with an ITERATION-ORDER ORACLE and with Slice() as an operation: every operation
+     that ranges over a map (AddSet, RemoveSet — also with the set itself as argument — and
+     Slice) carries the order the runtime happened to use, an arbitrary permutation of that
+     map's keys chosen anew at every step ([orders_ok]).  Whatever the oracle answers, every
+     boolean result is the mathematical set's, every Slice() result is nil exactly when the set
+     is empty and otherwise a duplicate-free listing of exactly the members of the ABSTRACT set
+     ([out_ok]), and the final states are related. *)
+  Theorem C07_run_oracle : forall dom xs,
+    Forall (xop_ok (op_ok T dom)) xs -> orders_ok eqb s_nil xs ->
+    Forall2 (@out_ok T) (x_run eqb s_nil xs) (ax_run eqb a_empty dom xs)
+    /\ wf (x_final eqb s_nil xs)
+    /\ rel T eqb (x_final eqb s_nil xs) (ax_final eqb a_empty dom xs).
+  Proof. exact (xrun_refines_nil T eqb eqb_eq). Qed.
+
+  (* Slice() against the abstract set p the model state is related to (not against the model's
+     own key list): for every order the runtime may list the keys in *)
+  Theorem C07_slice_abs : forall s p order,
+    wf s -> rel T eqb s p -> Permutation order (elems s) ->
+    match slice_in order with
+    | None => forall x, p x = false
+    | Some l => l <> [] /\ NoDup l /\ forall x, In x l <-> p x = true
+    end.
+  Proof. exact (slice_abs T eqb eqb_eq). Qed.
+
+  (* "true exactly when the membership changed", literally: the result is true iff the set after
+     the call differs from the set before *)
+  Theorem C07_add_changed : forall s items, wf s ->
+    let r := s_add eqb s items in
+    snd r = true <-> exists y, mem (fst r) y /\ ~ mem s y.
+  Proof. exact (add_changed T eqb eqb_eq). Qed.
+
+  Theorem C07_remove_changed : forall s items, wf s ->
+    let r := s_remove eqb s items in
+    snd r = true <-> exists y, mem s y /\ ~ mem (fst r) y.
+  Proof. exact (remove_changed T eqb eqb_eq). Qed.
 
   (* programs over several set variables (AddSet/RemoveSet take another variable, possibly the
      same one, as argument): every run refines a vector of mathematical sets — in particular an
@@ -92,22 +125,59 @@ Section C07.
     map snd (m_run eqb (repeat s_nil k) ops) = am_run T eqb (repeat a_empty k) dom ops
     /\ mwf T (m_final T eqb (repeat s_nil k) ops)
     /\ mrel T eqb (m_final T eqb (repeat s_nil k) ops) (am_final T eqb (repeat a_empty k) dom ops).
-  Proof.
-    intros dom k ops H. destruct (init_ok T eqb dom k) as [A [B C]].
-    exact (mrun_refines T eqb eqb_eq dom ops _ _ A B C H).
-  Qed.
+  Proof. exact (mrun_refines_nil T eqb eqb_eq). Qed.
 
   Theorem C07_frame : forall st o k,
     k <> m_target o -> mget (fst (m_step eqb st o)) k = mget st k.
   Proof. exact (mstep_frame T eqb). Qed.
 
+  (* ---- maps WITH IDENTITY (C07_frame above is about immutable values and holds by construction;
+     the statements below are about references into a heap of maps, where sharing of storage is
+     expressible).  [st_add] … are the store-level operations the store rendering of set.go is
+     tied to on every run (coq/ties/Tie_C07_store.v); [add_post] / [rem_post] say: the map the
+     receiver denotes afterwards and the flag are the value model's, every OTHER location keeps
+     its contents, and the receiver keeps its location or, when it was nil, gets a fresh one. *)
+  Theorem C07_store_add : forall h r items,
+    valid h r -> add_post T eqb h r items (st_add eqb h r items).
+  Proof. exact (st_add_spec T eqb). Qed.
+
+  Theorem C07_store_addset : forall h r a,
+    valid h r -> valid h a -> add_post T eqb h r (h_keys h a) (st_addset eqb h r a).
+  Proof. exact (st_addset_spec T eqb). Qed.
+
+  Theorem C07_store_remove : forall h r items,
+    valid h r -> rem_post T eqb h r items (st_remove eqb h r items).
+  Proof. exact (st_remove_spec T eqb). Qed.
+
+  Theorem C07_store_removeset : forall h r a,
+    valid h r -> rem_post T eqb h r (h_keys h a) (st_removeset eqb h r a).
+  Proof. exact (st_removeset_spec T eqb). Qed.
+
+  (* AddSet never makes the receiver share the argument's map: the receiver's reference afterwards
+     is its old one or one that did not exist before; it equals the argument's only if it did so
+     before the call *)
+  Theorem C07_store_no_alias : forall h r a,
+    valid h r -> valid h a ->
+    let '(_, r', _) := st_addset eqb h r a in
+    (r' = r \/ ~ valid h r') /\ (a <> 0 -> a <> r -> r' <> a).
+  Proof. exact (st_addset_no_alias T eqb). Qed.
+
+  (* programs over k variables in the store semantics, from k nil variables over the empty heap:
+     the booleans are those of the vector of mathematical sets, what the variables denote at the
+     end is related to it, and the non-nil references of different variables stay pairwise
+     distinct (no two sets ever share storage) *)
+  Theorem C07_store_refines : forall dom k ops,
+    Forall (mop_ok T dom) ops ->
+    let st0 : sstate T := ([], repeat 0 k) in
+    map snd (st_run eqb st0 ops) = am_run T eqb (repeat a_empty k) dom ops
+    /\ mrel T eqb (view (st_final T eqb st0 ops)) (am_final T eqb (repeat a_empty k) dom ops)
+    /\ sinv T (st_final T eqb st0 ops).
+  Proof. exact (store_refines T eqb eqb_eq). Qed.
+
   (* the pinned code (before fix ad9c99c) violated C07_has on repeated arguments *)
   Theorem C07_has_orig_refuted : forall a : T,
     exists s items, items <> [] /\ Forall (mem s) items /\ s_has_orig eqb s items = false.
-  Proof.
-    intros a. exists (s_make eqb [a]), [a; a].
-    destruct (has_orig_refuted T eqb a) as [E F]. split; [discriminate | split; [exact F | exact E]].
-  Qed.
+  Proof. exact (has_orig_refuted_ex T eqb). Qed.
 End C07.
 
 (* non-vacuity on a concrete instance: integers, a pre-filled set, repeated and absent arguments *)
@@ -120,6 +190,30 @@ Example C07_example :
   /\ s_slice (@s_nil Z) = None.
 Proof. vm_compute. repeat split. Qed.
 
+(* non-vacuity of the oracle run: AddSet ranging over its argument in reverse order, Slice() and
+   RemoveSet(self) ranging in another order than the key list *)
+Example C07_example_oracle :
+  let xs := [XOp (OAddSet [1; 2; 3]%Z) [3; 2; 1]%Z; XSlice [1; 2; 3]%Z;
+             XOp ORemoveSelf [1; 2; 3]%Z; XSlice []]%list in
+  orders_ok Z.eqb s_nil xs
+  /\ x_run Z.eqb s_nil xs = [XB true; XL (Some [1; 2; 3]%Z); XB true; XL None].
+Proof.
+  split; [|vm_compute; reflexivity]. cbn. repeat split.
+  - exact (Permutation_sym (Permutation_rev [1; 2; 3]%Z)).
+  - exact (Permutation_sym (Permutation_rev [3; 2; 1]%Z)).
+  - exact (Permutation_sym (Permutation_rev [3; 2; 1]%Z)).
+  - apply perm_nil.
+Qed.
+
+(* non-vacuity of the store semantics: s1 := Make(1,2); s0.AddSet(s1) on a nil s0 allocates a
+   fresh map (location 2, not s1's location 1); a later Add on s0 leaves s1 alone *)
+Example C07_example_store :
+  let ops := [MMake 1 [1; 2]%Z; MAddSet 0 1; MAdd 0 [7]%Z] in
+  let st := st_final Z Z.eqb ([], [0; 0]) ops in
+  snd st = [2; 1] /\ fst st = [[1; 2]%Z; [1; 2; 7]%Z]
+  /\ map snd (st_run Z.eqb ([], [0; 0]) ops) = [false; true; true].
+Proof. vm_compute. repeat split. Qed.
+
 Print Assumptions C07_invariant.
 Print Assumptions C07_has.
 Print Assumptions C07_hasany.
@@ -129,6 +223,16 @@ Print Assumptions C07_addset.
 Print Assumptions C07_remove.
 Print Assumptions C07_removeset.
 Print Assumptions C07_refines.
+Print Assumptions C07_run_oracle.
+Print Assumptions C07_slice_abs.
+Print Assumptions C07_add_changed.
+Print Assumptions C07_remove_changed.
 Print Assumptions C07_multi_refines.
 Print Assumptions C07_frame.
+Print Assumptions C07_store_add.
+Print Assumptions C07_store_addset.
+Print Assumptions C07_store_remove.
+Print Assumptions C07_store_removeset.
+Print Assumptions C07_store_no_alias.
+Print Assumptions C07_store_refines.
 Print Assumptions C07_has_orig_refuted.
